@@ -50,6 +50,42 @@ use uuid::Uuid;
 
 mod gen_cases;
 
+/// The replicator announces every catch-up it starts with a WARN event ("sequence gap detected, triggering
+/// catch-up", field partition_id). Counting them tells the harness, without any timing assumption, that a complete
+/// catch-up round (request, answer, apply) has happened: the next one starts only after the previous answer was handled.
+mod trace {
+    use std::fmt::Debug;
+    use std::sync::atomic::{AtomicU64, Ordering};
+    use tracing::field::{Field, Visit};
+    use tracing::{Event, Level, Metadata, Subscriber, span};
+    pub static GAPS: [AtomicU64; 2048] = [const { AtomicU64::new(0) }; 2048];
+    pub fn gaps(pid: u16) -> u64 { GAPS[pid as usize % 2048].load(Ordering::SeqCst) }
+    #[derive(Default)]
+    struct V { pid: Option<u64>, gap: bool }
+    impl Visit for V {
+        fn record_u64(&mut self, f: &Field, v: u64) { if f.name() == "partition_id" { self.pid = Some(v); } }
+        fn record_i64(&mut self, f: &Field, v: i64) { if f.name() == "partition_id" { self.pid = Some(v as u64); } }
+        fn record_str(&mut self, f: &Field, v: &str) { if f.name() == "message" && v.contains("sequence gap detected") { self.gap = true; } }
+        fn record_debug(&mut self, f: &Field, v: &dyn Debug) {
+            if f.name() == "message" && format!("{v:?}").contains("sequence gap detected") { self.gap = true; }
+        }
+    }
+    pub struct Sub;
+    impl Subscriber for Sub {
+        fn enabled(&self, m: &Metadata<'_>) -> bool { m.is_event() && *m.level() == Level::WARN && m.target().starts_with("sierradb_cluster::write::replicate") }
+        fn new_span(&self, _: &span::Attributes<'_>) -> span::Id { span::Id::from_u64(1) }
+        fn record(&self, _: &span::Id, _: &span::Record<'_>) {}
+        fn record_follows_from(&self, _: &span::Id, _: &span::Id) {}
+        fn event(&self, e: &Event<'_>) {
+            let mut v = V::default();
+            e.record(&mut v);
+            if v.gap { if let Some(p) = v.pid { GAPS[p as usize % 2048].fetch_add(1, Ordering::SeqCst); } }
+        }
+        fn enter(&self, _: &span::Id) {}
+        fn exit(&self, _: &span::Id) {}
+    }
+}
+
 const PARTS: u16 = 2048;
 const BUCKETS: u16 = 4;
 const X_LIMIT: usize = 4;
@@ -255,20 +291,32 @@ impl<'a> Run<'a> {
         self.pend = rest;
     }
 
-    /// Y's catch-up runs on its own timer: wait until it has gone quiet
+    async fn y_next(&mut self) -> Result<u64, String> {
+        Ok(self.sh.dby.get_partition_sequence(self.c.pid).await.map_err(|e| e.to_string())?.map(|s| s.sequence + 1).unwrap_or(0))
+    }
+
+    /// Y's catch-up runs on its own timer. It is quiet when nothing is buffered any more (every write answered), or when
+    /// a whole catch-up round that began after the last change brought no progress: the replicator announces each round,
+    /// and starts the next one only after it handled the previous answer, so two further announcements bracket one round.
     async fn settle(&mut self) -> Result<(), String> {
         self.barrier(false).await?;
         self.barrier(true).await?;
-        tokio::task::yield_now().await;
         self.collect(false).await;
         if !self.pend.iter().any(|(_, y, _)| *y) { return Ok(()); }
         let t0 = Instant::now();
-        let mut last = (u64::MAX, Instant::now());
+        let mut base = (trace::gaps(self.c.pid), self.y_next().await?);
         loop {
-            let cur = self.sh.dby.get_partition_sequence(self.c.pid).await.map_err(|e| e.to_string())?.map(|s| s.sequence + 1).unwrap_or(0);
-            if cur != last.0 { last = (cur, Instant::now()); }
-            if last.1.elapsed() > Duration::from_millis(900) || t0.elapsed() > Duration::from_secs(20) { break; }
-            tokio::time::sleep(Duration::from_millis(40)).await;
+            tokio::time::sleep(Duration::from_millis(15)).await;
+            self.barrier(true).await?;
+            self.collect(false).await;
+            if !self.pend.iter().any(|(_, y, _)| *y) { break; }
+            let g = trace::gaps(self.c.pid);
+            if g >= base.0 + 2 {
+                let n = self.y_next().await?;
+                if n == base.1 { break; }
+                base = (g, n);
+            }
+            if t0.elapsed() > Duration::from_secs(120) { return Err("Y's catch-up neither finished nor went quiet in 120 s".into()); }
         }
         self.barrier(true).await?;
         self.collect(false).await;
@@ -522,6 +570,7 @@ async fn child_run(rf: u8, lines: Vec<String>) -> Result<Vec<(String, String)>, 
 fn child(a: &Args, out: &mut Out) {
     let lines: Vec<String> = std::fs::read_to_string(&a.rest[0]).unwrap().lines().map(|l| l.trim().to_string()).filter(|l| !l.is_empty()).collect();
     let Some(rf) = lines.first().and_then(|l| l.split_whitespace().nth(1)).and_then(|x| x.parse::<u8>().ok()) else { return };
+    tracing::subscriber::set_global_default(trace::Sub).expect("tracing subscriber");
     let rt = tokio::runtime::Builder::new_multi_thread().worker_threads(6).enable_all().build().unwrap();
     match rt.block_on(child_run(rf, lines)) {
         Ok(v) => { for (c, o) in v { out.case(&c, &o); } }
